@@ -251,7 +251,8 @@ PROPS['C08'] = dict(
     level_note=SEARCH_NOTE + ' ' + ORACLE_ASSUMPTION + ' The engine counting plies instead of moves only weakens its claim and is not objected to.',
     rule='evaluations = searches. Non-trivial = distinct searches that had a mate in one available or ended with a mate announcement.',
     assumptions=[ORACLE_ASSUMPTION],
-    quick=dict(cases=90, shards=16, scale=4, gates={'c08:mate_in_one_available': 200, 'c08:mate_announcements': 200, 'c08:kind_sparse_endgame': 150, 'c08:kind_game_flow_successor': 200, 'c08:mate_in_one_by_pawn_available': 8, 'c08:announcement_confirmed': 150, 'c08:mate_in_one_high_clock': 10}, min_nontrivial=300),
+    quick=dict(cases=110, shards=16, scale=4, gates={'c08:mate_in_one_available': 200, 'c08:mate_announcements': 200, 'c08:kind_sparse_endgame': 100, 'c08:kind_game_flow_successor': 150, 'c08:mate_in_one_by_pawn_available': 6,
+               'c08:special_mate_en_passant_discovered': 40, 'c08:special_mate_castling': 40, 'c08:special_mate_knight_promotion': 40, 'uci:mate_in_one_available': 60, 'c08:announcement_confirmed': 150, 'c08:mate_in_one_high_clock': 10}, min_nontrivial=300),
     thorough=dict(cases=3000, shards=16, scale=4, min_nontrivial=15000),
 )
 PROPS['C09'] = dict(
@@ -304,7 +305,12 @@ PROPS['C10'] = dict(
                   exit=dict(cases=150, shards=16, scale=3, min_nontrivial=1000)),
 )
 
-HOOK_COMMITS = ['2ee17ca']
+HOOK_COMMITS = ['2ee17ca', '895e75c', '46141b5']
+
+# Zobrist entropy windows (24 bits each) used by the last shards of C01 / C05 / C14
+ZMASKS = ['00ffffff00000000', '0000000ffffff000', '0000000000ffffff', 'ffffff0000000000', '00000ffffff00000']
+for _p in ('C01', 'C05', 'C14'):
+    PROPS[_p]['zmask_shards'] = ZMASKS
 
 NOT_APPLICABLE = [dict(property_id='C%02d' % i, reason='check not built yet in this session (work in progress, not a limit of the technique)')
                   for i in range(1, 21) if 'C%02d' % i not in PROPS]
